@@ -17,6 +17,7 @@ claimed = {c["property_id"] for c in json.load(open(os.path.join(V, "MANIFEST.js
 ids = args or sorted(os.listdir(os.path.join(V, "seeded")))
 # evidence files are rewritten by every check run: keep the ones of the clean tree
 import shutil, tempfile
+os.makedirs(os.path.join(V, ".cache"), exist_ok=True)
 _ev_backup = tempfile.mkdtemp(prefix="evidence_backup_", dir=os.path.join(V, ".cache"))
 shutil.copytree(os.path.join(V, "evidence"), os.path.join(_ev_backup, "evidence"))
 assert subprocess.run(f"git -C {REPO} status --porcelain --untracked-files=no", shell=True, capture_output=True, text=True).stdout.strip() == "", "/repo not clean"
